@@ -479,6 +479,10 @@ def calculate_drt_tr_nnls(
             raise ValueError(
                 f"There are no unmasked data points in the '{data.get_label()}' data set parsed from '{data.get_path()}'"
             )
+        elif len(f) < 2:
+            raise ValueError(
+                f"Expected at least two unmasked data points instead of {len(f)} in the '{data.get_label()}' data set"
+            )
 
         Z_exp: ComplexImpedances = data.get_impedances()
         omega: NDArray[float64] = 2 * pi * f
